@@ -104,13 +104,38 @@ def build_plane(ctx, rng, plane_kind, sub_kind, quats, friction):
     if sub.kind != "origin":
         system.add(sub.obj)
     rho = rng.choice([0, 1, 2])
+    if sub.kind in ("rigid", "point") and rng.random() < 0.6:
+        sub.obj.radius = 3.0          # bodies may carry geometry of their own (the meshed Sphere / Cylinder / Capsule do): the contact uses its arguments
     al = [1, 1] if rng.random() < 0.4 else [rng.choice([1, 2, 3]), rng.choice([1, 2])]
     B = iv(-1, 2) if hasattr(sub.obj, "A_IB") and sub.kind not in ("point",) else np.zeros(3)
     mu = 0.5 if friction else 0.0
     c = Sphere2Plane(frame, sub.obj, mu=mu, r=float(rho), xi=sub.xi, B_r_CP=B, e_N=0.5, e_F=0.0, anisotropy=np.array(al, dtype=float))
     system.add(c)
+    # a second live contact of the same class on the same body against another plane: it sees the same local (t, q) and is evaluated right before
+    # every record of the first one (instances must not share state)
+    from cardillo.discrete import Frame as _Frame
+    plane2 = _Frame(r_OP=np.array([0.5, -1.5, -9.0]), A_IB=quat_to_matrix(GEN_QUATS[1]) @ octahedral_group()[7].astype(float), name=f"plane2_{rng.randrange(10**9)}")
+    comp = Sphere2Plane(plane2, sub.obj, mu=mu, r=1.5, xi=sub.xi, B_r_CP=B + 0.25, e_N=0.5, e_F=0.0, name=f"companion_{rng.randrange(10**9)}")
+    system.add(plane2, comp)
+    c._vf_companion = comp
     system.assemble(options=SolverOptions(compute_consistent_initial_conditions=False))
     return system, c, frame, sub, rho, al, B, max(tev, sub.t_eval)
+
+
+def _evaluate_companion(c, t, q, u, ud, friction):
+    """the companion contact (another instance of the class on the same subsystems' coordinates) is asked for everything first"""
+    comp = getattr(c, "_vf_companion", None)
+    if comp is None:
+        return
+    for name, args in (("g_N", (t, q)), ("g_N_q", (t, q)), ("g_N_dot", (t, q, u)), ("g_N_ddot", (t, q, u, ud)), ("W_N", (t, q)), ("g_N_dot_u", (t, q)), ("g_N_dot_q", (t, q, u)),
+                       ("Wla_N_q", (t, q, np.ones(1)))) + ((("gamma_F", (t, q, u)), ("gamma_F_q", (t, q, u)), ("gamma_F_dot", (t, q, u, ud)), ("W_F", (t, q)), ("gamma_F_u", (t, q)),
+                                                          ("Wla_F_q", (t, q, np.ones(2)))) if friction else ()):
+        f = getattr(comp, name, None)
+        if callable(f):
+            try:
+                f(*[a.copy() if isinstance(a, np.ndarray) else a for a in args])
+            except (NotImplementedError, AttributeError):
+                pass
 
 
 def plane_record(ctx, rid, rng, c, frame, sub, rho, al, B, t, friction, where, generic=False):
@@ -135,6 +160,7 @@ def plane_record(ctx, rid, rng, c, frame, sub, rho, al, B, t, friction, where, g
     laN = rng.choice([1, 2, -1]); laF = [rng.choice([1, -2, 3]), rng.choice([2, -1])]
     rec["laN"] = laN; rec["laF"] = laF
     nq, nu = len(q), len(u)
+    _evaluate_companion(c, t, q, u, ud, friction)
     sc1 = lambda x, what="scalar": I(np.atleast_1d(x).ravel(), what)[0]
     rec["gN"] = sc1(c.g_N(t, q.copy()) * cN, "g_N"); rec["gNdot"] = sc1(c.g_N_dot(t, q.copy(), u.copy()) * cN, "g_N_dot")
     rec["gNddot"] = sc1(c.g_N_ddot(t, q.copy(), u.copy(), ud.copy()) * cN, "g_N_ddot")
@@ -249,6 +275,14 @@ def build_spheres(ctx, rng, kinds, quats, friction):
     rho1, rho2 = rng.choice([1, 2]), rng.choice([1, 2])
     c = Sphere2Sphere(subs[0].obj, subs[1].obj, float(rho1), float(rho2), 0.5 if friction else 0.0, e_N=0.5, e_F=0.0)
     system.add(c)
+    if fr_data is not None:
+        # a second prescribed sphere touching the same free body: both contacts see the same local (t, q) (frames have no coordinates)
+        i = fr_data["i"]
+        frame2 = Frame(r_OP=c1 + np.array([7.0, -5.0, 3.0]), name=f"sphere2_{rng.randrange(10**9)}")
+        pair = (frame2, subs[1].obj) if i == 0 else (subs[0].obj, frame2)
+        comp = Sphere2Sphere(pair[0], pair[1], 1.5, 0.5, 0.5 if friction else 0.0, e_N=0.5, e_F=0.0, name=f"companion_{rng.randrange(10**9)}")
+        system.add(frame2, comp)
+        c._vf_companion = comp
     system.assemble(options=SolverOptions(compute_consistent_initial_conditions=False))
     return system, c, subs, rho1, rho2, fr_data
 
@@ -304,6 +338,7 @@ def sphere_record(ctx, rid, rng, c, subs, rho1, rho2, fr_data, t, friction, wher
     rec["Acc"] = dict(a=I(K[1]["a"] - K[0]["a"], "a12"), Ys=I(rho1 * K[0]["Y"] + rho2 * K[1]["Y"], "Ys"))
     laN = rng.choice([1, 2, -1]); laF = [rng.choice([1, -2, 3]), rng.choice([2, -1])]
     rec["laN"] = laN; rec["laF"] = laF
+    _evaluate_companion(c, t, q, u, ud, friction)
     KK = 2 * d ** 4 * m ** 3
     R1 = lambda x, what, sc=1: rat(ctx, x, KK * sc, what, w)[0]
     R2 = lambda x, what, sc=1: rat(ctx, x, KK * sc, what, w)
